@@ -141,18 +141,18 @@ GCFLAGS = [
 
 
 def instrument(ov, mods):
-    gen = os.path.join(BUILD, "gen")
+    gen = os.path.join(BUILD, "gen-" + CMD[0])
     os.makedirs(gen, exist_ok=True)
     inst_bin = os.path.join(BUILD, "bin", "instrument")
     os.makedirs(os.path.dirname(inst_bin), exist_ok=True)
     run(["go", "build", "-o", inst_bin, "."], cwd=os.path.join(VERIF, "engine", "instrument"))
-    ovfile = os.path.join(BUILD, "overlay-base.json")
+    ovfile = os.path.join(BUILD, "overlay-base-%s.json" % CMD[0])
     with open(ovfile, "w") as f:
         json.dump({"Replace": ov}, f, indent=1)
     # export data for every dependency
     out = run(["go", "list"] + MODFILE + ["-overlay", ovfile] + GCFLAGS + ["-export", "-deps", "-f",
               "{{.ImportPath}} {{.Export}}", "./cmd/..."], cwd=HARNESS)
-    exports = os.path.join(BUILD, "exports.txt")
+    exports = os.path.join(BUILD, "exports-%s.txt" % CMD[0])
     with open(exports, "w") as f:
         f.write(out)
     pk = run(["go", "list"] + MODFILE + ["-overlay", ovfile, "-f", "{{.ImportPath}} {{.Dir}} {{range .GoFiles}}{{.}},{{end}}"] + INSTRUMENTED,
@@ -180,7 +180,7 @@ def main():
         tags.append("vsched")
     elif flavour == "race":
         flags = ["-race", "-gcflags=all=-d=checkptr=0"] + flags
-    ovfile = os.path.join(BUILD, "overlay-%s.json" % flavour)
+    ovfile = os.path.join(BUILD, "overlay-%s-%s.json" % (flavour, cmd))
     with open(ovfile, "w") as f:
         json.dump({"Replace": ov}, f, indent=1)
     out = os.path.join(BUILD, "bin", "%s-%s" % (cmd, flavour))
